@@ -29,12 +29,17 @@ struct vp_in {
 
 #define DUP(src, n) ((octet*)vp_dup((src), (n)))
 #define NEW(n) ((octet*)vp_alloc(n))
+/* sanity switch (never set by props/C07.py): -DVP_SHRINK=1 under-allocates every state by one octet; every bundle must then FAIL */
+#ifndef VP_SHRINK
+#define VP_SHRINK 0
+#endif
+#define STATE(keep) NEW((keep) - VP_SHRINK)
 
 /* ------------------------------------------------------------------ belt: block modes */
 #if defined(B_ECB)
 static void vp_body(struct vp_in* pin, size_t klen, size_t n, size_t m)
 {
-	void* st = NEW(beltECB_keep()); octet* key = DUP(pin->key, klen);
+	void* st = STATE(beltECB_keep()); octet* key = DUP(pin->key, klen);
 	octet* b1 = DUP(pin->d1, n); octet* b2 = DUP(pin->d2, m);
 	beltECBStart(st, key, klen);
 	beltECBStepE(b1, n, st); beltECBStepE(b2, m, st);
@@ -44,7 +49,7 @@ static void vp_body(struct vp_in* pin, size_t klen, size_t n, size_t m)
 #elif defined(B_CBC)
 static void vp_body(struct vp_in* pin, size_t klen, size_t n, size_t m)
 {
-	void* st = NEW(beltCBC_keep()); octet* key = DUP(pin->key, klen); octet* iv = DUP(pin->iv, 16);
+	void* st = STATE(beltCBC_keep()); octet* key = DUP(pin->key, klen); octet* iv = DUP(pin->iv, 16);
 	octet* b1 = DUP(pin->d1, n); octet* b2 = DUP(pin->d2, m);
 	beltCBCStart(st, key, klen, iv);
 	beltCBCStepE(b1, n, st); beltCBCStepE(b2, m, st);
@@ -55,7 +60,7 @@ static void vp_body(struct vp_in* pin, size_t klen, size_t n, size_t m)
 #elif defined(B_CFB)
 static void vp_body(struct vp_in* pin, size_t klen, size_t n, size_t m)
 {
-	void* st = NEW(beltCFB_keep()); octet* key = DUP(pin->key, klen); octet* iv = DUP(pin->iv, 16);
+	void* st = STATE(beltCFB_keep()); octet* key = DUP(pin->key, klen); octet* iv = DUP(pin->iv, 16);
 	octet* b1 = DUP(pin->d1, n); octet* b2 = DUP(pin->d2, m);
 	beltCFBStart(st, key, klen, iv);
 	beltCFBStepE(b1, n, st); beltCFBStepE(b2, m, st);
@@ -66,7 +71,7 @@ static void vp_body(struct vp_in* pin, size_t klen, size_t n, size_t m)
 #elif defined(B_CTR)
 static void vp_body(struct vp_in* pin, size_t klen, size_t n, size_t m)
 {
-	void* st = NEW(beltCTR_keep()); octet* key = DUP(pin->key, klen); octet* iv = DUP(pin->iv, 16);
+	void* st = STATE(beltCTR_keep()); octet* key = DUP(pin->key, klen); octet* iv = DUP(pin->iv, 16);
 	octet* b1 = DUP(pin->d1, n); octet* b2 = DUP(pin->d2, m);
 	beltCTRStart(st, key, klen, iv);
 	beltCTRStepE(b1, n, st); beltCTRStepE(b2, m, st); beltCTRStepE(b1, n, st);
@@ -75,7 +80,7 @@ static void vp_body(struct vp_in* pin, size_t klen, size_t n, size_t m)
 #elif defined(B_BDE)
 static void vp_body(struct vp_in* pin, size_t klen, size_t n, size_t m)
 {
-	void* st = NEW(beltBDE_keep()); octet* key = DUP(pin->key, klen); octet* iv = DUP(pin->iv, 16);
+	void* st = STATE(beltBDE_keep()); octet* key = DUP(pin->key, klen); octet* iv = DUP(pin->iv, 16);
 	octet* b1 = DUP(pin->d1, n); octet* b2 = DUP(pin->d2, m);
 	beltBDEStart(st, key, klen, iv);
 	beltBDEStepE(b1, n, st); beltBDEStepE(b2, m, st);
@@ -86,7 +91,7 @@ static void vp_body(struct vp_in* pin, size_t klen, size_t n, size_t m)
 #elif defined(B_SDE)
 static void vp_body(struct vp_in* pin, size_t klen, size_t n, size_t m)
 {
-	void* st = NEW(beltSDE_keep()); octet* key = DUP(pin->key, klen); octet* iv = DUP(pin->iv, 16);
+	void* st = STATE(beltSDE_keep()); octet* key = DUP(pin->key, klen); octet* iv = DUP(pin->iv, 16);
 	octet* b1 = DUP(pin->d1, n); octet* b2 = DUP(pin->d2, m);
 	beltSDEStart(st, key, klen);
 	beltSDEStepE(b1, n, iv, st); beltSDEStepE(b2, m, iv, st);
@@ -97,7 +102,7 @@ static void vp_body(struct vp_in* pin, size_t klen, size_t n, size_t m)
 /* n: length for StepE/StepD/StepR; m: length for StepD2 (buf1 = m - 16 octets, buf2 = 16 octets) */
 static void vp_body(struct vp_in* pin, size_t klen, size_t n, size_t m)
 {
-	void* st = NEW(beltWBL_keep()); octet* key = DUP(pin->key, klen);
+	void* st = STATE(beltWBL_keep()); octet* key = DUP(pin->key, klen);
 	octet* b1 = DUP(pin->d1, n); octet* p1 = DUP(pin->d2, m - 16); octet* p2 = DUP(pin->d2 + m - 16, 16);
 	beltWBLStart(st, key, klen);
 	beltWBLStepE(b1, n, st);
@@ -113,7 +118,7 @@ static void vp_body(struct vp_in* pin, size_t klen, size_t n, size_t m)
 #elif defined(B_MAC)
 static void vp_body(struct vp_in* pin, size_t klen, size_t n, size_t m)
 {
-	void* st = NEW(beltMAC_keep()); octet* key = DUP(pin->key, klen);
+	void* st = STATE(beltMAC_keep()); octet* key = DUP(pin->key, klen);
 	octet* b1 = DUP(pin->d1, n); octet* b2 = DUP(pin->d2, m);
 	octet* mac = NEW(8); octet* mac2 = NEW(m % 9); octet* v = DUP(pin->mac, 8); octet* v2 = DUP(pin->mac, n % 9);
 	beltMACStart(st, key, klen);
@@ -130,7 +135,7 @@ static void vp_body(struct vp_in* pin, size_t klen, size_t n, size_t m)
 #elif defined(B_HASH)
 static void vp_body(struct vp_in* pin, size_t klen, size_t n, size_t m)
 {
-	void* st = NEW(beltHash_keep());
+	void* st = STATE(beltHash_keep());
 	octet* b1 = DUP(pin->d1, n); octet* b2 = DUP(pin->d2, m);
 	octet* h = NEW(32); octet* h2 = NEW(klen); octet* v = DUP(pin->mac, 32); octet* v2 = DUP(pin->mac, klen);
 	beltHashStart(st);
@@ -145,7 +150,7 @@ static void vp_body(struct vp_in* pin, size_t klen, size_t n, size_t m)
 #elif defined(B_HMAC)
 static void vp_body(struct vp_in* pin, size_t klen, size_t n, size_t m)
 {
-	void* st = NEW(beltHMAC_keep()); octet* key = DUP(pin->key, klen);
+	void* st = STATE(beltHMAC_keep()); octet* key = DUP(pin->key, klen);
 	octet* b1 = DUP(pin->d1, n); octet* b2 = DUP(pin->d2, m);
 	octet* h = NEW(32); octet* h2 = NEW(m % 33); octet* v = DUP(pin->mac, 32); octet* v2 = DUP(pin->mac, n % 33);
 	beltHMACStart(st, key, klen);
@@ -161,7 +166,7 @@ static void vp_body(struct vp_in* pin, size_t klen, size_t n, size_t m)
 /* n: length of the derived key, m unused */
 static void vp_body(struct vp_in* pin, size_t klen, size_t n, size_t m)
 {
-	void* st = NEW(beltKRP_keep()); octet* key = DUP(pin->key, klen);
+	void* st = STATE(beltKRP_keep()); octet* key = DUP(pin->key, klen);
 	octet* level = DUP(pin->level, 12); octet* hdr = DUP(pin->hdr, 16); octet* out = NEW(n);
 	beltKRPStart(st, key, klen, level);
 	beltKRPStepG(out, n, hdr, st);
@@ -178,7 +183,7 @@ static void vp_body(struct vp_in* pin, size_t klen, size_t n, size_t m)
 /* n: public data (StepI, twice: n then m % 16 more), m: critical data */
 static void vp_body(struct vp_in* pin, size_t klen, size_t n, size_t m)
 {
-	void* st = NEW(AE(_keep)()); octet* key = DUP(pin->key, klen); octet* iv = DUP(pin->iv, 16);
+	void* st = STATE(AE(_keep)()); octet* key = DUP(pin->key, klen); octet* iv = DUP(pin->iv, 16);
 	octet* pub = DUP(pin->d1, n); octet* pub2 = DUP(pin->d1, m % 16); octet* crit = DUP(pin->d2, m);
 	octet* crit2 = DUP(pin->d2, n);
 	octet* mac = NEW(8); octet* v = DUP(pin->mac, 8);
@@ -205,7 +210,7 @@ static void vp_body(struct vp_in* pin, size_t klen, size_t n, size_t m)
 static void vp_body(struct vp_in* pin, size_t klen, size_t n, size_t m)
 {
 	u32 mod = (u32)n; size_t count = m, i;
-	void* st = NEW(beltFMT_keep(mod, count)); octet* key = DUP(pin->key, klen); octet* iv = DUP(pin->iv, 16);
+	void* st = STATE(beltFMT_keep(mod, count)); octet* key = DUP(pin->key, klen); octet* iv = DUP(pin->iv, 16);
 	u16* buf = (u16*)NEW(2 * count);
 	for (i = 0; i < count; ++i)
 	{
@@ -226,7 +231,7 @@ static void vp_body(struct vp_in* pin, size_t klen, size_t n, size_t m)
 static void vp_body(struct vp_in* pin, size_t klen, size_t n, size_t m)
 {
 	size_t l = klen;
-	void* st = NEW(bashHash_keep());
+	void* st = STATE(bashHash_keep());
 	octet* b1 = DUP(pin->d1, n); octet* b2 = DUP(pin->d2, m);
 	octet* h = NEW(l / 4); octet* h2 = NEW(m % (l / 4 + 1)); octet* v = DUP(pin->key, l / 4);
 	bashHashStart(st, l);
@@ -251,7 +256,7 @@ static void vp_body(struct vp_in* pin, size_t klen, size_t n, size_t m)
 static void vp_body(struct vp_in* pin, size_t klen, size_t n, size_t m)
 {
 	size_t l = klen;
-	void* st = NEW(bashPrg_keep());
+	void* st = STATE(bashPrg_keep());
 	octet* ann = DUP(pin->iv, PRG_ANN); octet* key = DUP(pin->key, PRG_KEY);
 	octet* b1 = DUP(pin->d1, n); octet* b2 = DUP(pin->d2, m); octet* o1 = NEW(n); octet* o2 = NEW(m);
 	bashPrgStart(st, l, PRG_D, ann, PRG_ANN, key, PRG_KEY);
@@ -274,7 +279,7 @@ static void vp_body(struct vp_in* pin, size_t klen, size_t n, size_t m)
 #elif defined(B_BRNGCTR)
 static void vp_body(struct vp_in* pin, size_t klen, size_t n, size_t m)
 {
-	void* st = NEW(brngCTR_keep()); octet* key = DUP(pin->key, 32); octet* iv = DUP(pin->iv, 32);
+	void* st = STATE(brngCTR_keep()); octet* key = DUP(pin->key, 32); octet* iv = DUP(pin->iv, 32);
 	octet* b1 = DUP(pin->d1, n); octet* b2 = DUP(pin->d2, m); octet* ivo = NEW(32);
 	brngCTRStart(st, key, klen ? iv : 0);      /* klen == 0: the documented null synchro */
 	brngCTRStepR(b1, n, st);
@@ -289,9 +294,12 @@ static void vp_body(struct vp_in* pin, size_t klen, size_t n, size_t m)
 #endif
 static void vp_body(struct vp_in* pin, size_t klen, size_t n, size_t m)
 {
-	void* st = NEW(brngHMAC_keep()); octet* key = DUP(pin->key, klen); octet* iv = DUP(pin->iv, IV_LEN);
+	void* st = STATE(brngHMAC_keep()); octet* key = DUP(pin->key, klen); octet* iv = DUP(pin->iv, IV_LEN);
 	octet* b1 = NEW(n); octet* b2 = NEW(m);
 	brngHMACStart(st, key, klen, iv, IV_LEN);
+#if IV_LEN <= 64
+	free(iv);        /* brng.h: for iv_len <= 64 the contents of iv are saved in the state */
+#endif
 	brngHMACStepR(b1, n, st);
 	brngHMACStepR(b2, m, st);
 	VP_WITNESS();
@@ -301,7 +309,7 @@ static void vp_body(struct vp_in* pin, size_t klen, size_t n, size_t m)
 /* n = digit */
 static void vp_body(struct vp_in* pin, size_t klen, size_t n, size_t m)
 {
-	void* st = NEW(botpHOTP_keep()); octet* key = DUP(pin->key, klen); octet* ctr = DUP(pin->iv, 8);
+	void* st = STATE(botpHOTP_keep()); octet* key = DUP(pin->key, klen); octet* ctr = DUP(pin->iv, 8);
 	char* otp = (char*)NEW(n + 1); char* v = (char*)DUP(pin->d1, n + 1); octet* co = NEW(8);
 	v[n] = 0;
 	botpHOTPStart(st, n, key, klen);
@@ -315,7 +323,7 @@ static void vp_body(struct vp_in* pin, size_t klen, size_t n, size_t m)
 #elif defined(B_TOTP)
 static void vp_body(struct vp_in* pin, size_t klen, size_t n, size_t m)
 {
-	void* st = NEW(botpTOTP_keep()); octet* key = DUP(pin->key, klen);
+	void* st = STATE(botpTOTP_keep()); octet* key = DUP(pin->key, klen);
 	char* otp = (char*)NEW(n + 1); char* v = (char*)DUP(pin->d1, n + 1);
 	tm_time_t t = (tm_time_t)pin->t;
 	VP_ASSUME(t != TIME_ERR);
@@ -336,7 +344,7 @@ static void vp_body(struct vp_in* pin, size_t klen, size_t n, size_t m)
 static void vp_body(struct vp_in* pin, size_t klen, size_t n, size_t m)
 {
 	static const char suite0[] = OCRA_SUITE;
-	void* st = NEW(botpOCRA_keep()); octet* key = DUP(pin->key, klen); octet* ctr = DUP(pin->iv, 8);
+	void* st = STATE(botpOCRA_keep()); octet* key = DUP(pin->key, klen); octet* ctr = DUP(pin->iv, 8);
 	char* suite = (char*)DUP(suite0, sizeof(suite0));
 	octet* q = DUP(pin->d1, n); octet* co = NEW(8);
 #ifdef OCRA_ADJACENT
